@@ -158,7 +158,7 @@ def main():
     na = [{"property_id": k, "reason": v} for k, v in sorted({**NOT_APPLICABLE, **{k: v for k, v in PENDING.items() if k not in CLAIMED}}.items())]
     m = {
         "version": 1,
-        "setup_cmd": "/venv/bin/python -c \"import sys; sys.path.insert(0, '/repo/src'); import gemseo, h5py, numpy, scipy; print('dsim ready: gemseo', gemseo.__version__)\"",
+        "setup_cmd": "/venv/bin/python -c \"import sys; sys.path.insert(0, '/repo/src'); import gemseo, h5py, numpy, scipy; print('dsim ready: gemseo from', gemseo.__file__)\"",
         "hooks": {
             "guard": "GEMSEO_VERIF",
             "enable": "no source hook exists: every seam is a module-level name of gemseo rebound by /verif/dsim for the duration of a run (dsim/seams.py, dsim/procs.py); the guard variable is reserved and unused",
